@@ -6,12 +6,21 @@ virttest.cartesian_config.Parser on the suite's files (own composition of nets/v
 parameter view, get -> producing variants of all..<get> with a matching set_state, transitively).
 """
 from ..parse import props as PP
+from ..parse import graphsnap as S
 
 PID = "C07"
 
 
 def build(tier, rng, work):
     graphs = [PP.eager_graph(n, with_expected=True) for n in PP.plan(tier)] + PP.pair_graphs(rng, 12 if tier == "quick" else 160, with_expected=True)
+    # graphs real on-demand parsing ends with: one node per test and worker also when a producer is composed as setup before it is
+    # unrolled as a selected test (tests of two test sets), class-level edges as declared
+    for n in ("mixsets", "get2"):
+        ref = S.class_edges(PP.eager_graph(n))
+        for sn in PP.lazy_graphs(n, [rng.randrange(1 << 30) for _ in range(3 if tier == "quick" else 10)], work):
+            sn["reference"] = [list(e) for e in ref]
+            sn["hasreference"] = True
+            graphs.append(sn)
     # generated suites: the generator's own declaration checks the resolver, the resolver checks the real parse
     return graphs + PP.gen_graphs(rng, 8 if tier == "quick" else 96, work, with_expected=True)
 
